@@ -522,6 +522,17 @@ func (ck *checker) handle(o *outcome) {
 	}
 }
 
+func splitRace(scs []*scenario) (race, rest []*scenario) {
+	for _, s := range scs {
+		if isIn(raceKinds, s.Kind) {
+			race = append(race, s)
+		} else {
+			rest = append(rest, s)
+		}
+	}
+	return
+}
+
 func (ck *checker) runAll(scs []*scenario, workers int, deadline time.Time) (done int) {
 	var mu sync.Mutex
 	next := 0
@@ -626,7 +637,8 @@ func main() {
 			s.ID = i
 		}
 		total = len(scs)
-		completed = ck.runAll(scs, 48, time.Time{})
+		race, rest := splitRace(scs)
+		completed = ck.runAll(race, 8, time.Time{}) + ck.runAll(rest, 48, time.Time{})
 	} else {
 		t1, t2, t3 := thoroughSets(c)
 		all := append(append(append([]*scenario{}, t1...), t3...), t2...)
@@ -636,7 +648,10 @@ func main() {
 		total = len(all)
 		budget := 12 * time.Minute
 		deadline := time.Now().Add(budget)
-		completed = ck.runAll(all, 56, deadline)
+		// the scenarios that depend on hitting a window of a few hundred milliseconds run first, with few workers
+		race, rest := splitRace(all[:len(t1)+len(t3)])
+		rest = append(rest, all[len(t1)+len(t3):]...)
+		completed = ck.runAll(race, 8, deadline) + ck.runAll(rest, 56, deadline)
 		if completed < total {
 			exhaustive = false
 			capNote = fmt.Sprintf("time budget of %v reached after %d of %d scenarios (order: every (kind,height,range,after) once with a rotating arrival order and 2 peers [%d], the same with 3 peers [%d], then the remaining five arrival orders [%d])", budget, completed, total, len(t1), len(t3), len(t2))
